@@ -263,14 +263,12 @@ def run(ctx):
                        'extrusion, remove_unused_nodes, remove_duplicate_nodes, oriented on integer-coordinate meshes with exact '
                        'Fraction geometry; non-trivial = at least two cells; distinct by content hash')
     ctx.ensure_static()
-    gen_ok = True
-    try:
-        ctx.write_gen('C18Gen', T.translate())
-    except TranslateError as e:
-        ctx.broke('translator', 'c18_translate.translate(mesh.py, mesh_quad_1.py, mesh_hex_1.py, mesh_wedge_1.py)', e)
-        gen_ok = False
-    if gen_ok:
-        ctx.compile_dyn(['gen/C18Gen.v'] + ctx.copy_dyn())
+    txt, errors = T.translate()
+    for name, err in errors:
+        ctx.broke('translator', 'c18_translate: ' + name, err)
+    ctx.write_gen('C18Gen', txt)
+    gen_ok = not errors
+    ctx.compile_dyn(['gen/C18Gen.v'] + ctx.copy_dyn())
     ctx.prove()
     try:
         correspondence(ctx, gen_ok)
